@@ -122,11 +122,22 @@ def run_case(case: dict) -> dict:
     model = rm.build(net.spec())
     use_y0 = rng.random() < 0.3
     y0 = {v: dy(rng, 0.0, 3.0) for v in net.variables} if use_y0 else None
+    y0_keys_permuted = False
+    if y0 is not None and len(y0) > 1 and rng.random() < 0.6:
+        # a start state is a mapping: its key order is the caller's, not the model's (own draw: the case's other draws stay as they were)
+        keys = list(y0)
+        r2 = core.rng_for(case["seed"] + ":y0order")
+        while keys == list(y0):
+            r2.shuffle(keys)
+        y0 = {k: y0[k] for k in keys}
+        y0_keys_permuted = True
     sim = Simulator(model, y0=y0)
     spec = simhist.Spec(net, y0 if y0 is not None else net.y0)
     history: list[dict] = []
     viols: list[dict] = []
     counters: dict[str, int] = {"ops": 0, "segments_checked": 0}
+    if y0_keys_permuted:
+        counters["y0 given in another key order than the model's variables"] = 1
     tiny = rng.random() < 0.2
     counters["mode:tiny_segments_at_large_time"] = int(tiny)
     repeat: list[dict] = []
